@@ -59,6 +59,34 @@ def escapes(name, v, t):
 THREAD_REPLICA = False   # this monitor uses a process-wide sys.monitoring probe / has its own thread trials
 
 
+LOOKALIKE_DIGITS = {}
+
+
+def load_lookalikes():
+    """Characters that the library's clean() turns into an ASCII digit, with their Unicode decimal value."""
+    if LOOKALIKE_DIGITS:
+        return
+    import unicodedata
+    from stdnum import util
+    allc = []
+    value = {}
+    for cp in list(range(0x80, 0x3000)) + list(range(0xFF00, 0xFFF0)) + list(range(0x1D7CE, 0x1D800)) + list(range(0x1FBF0, 0x1FBFA)):
+        c = chr(cp)
+        try:
+            r = util.clean(c)
+        except Exception:  # noqa: B902
+            continue
+        if r != c and len(r) == 1 and r in '0123456789':
+            d = unicodedata.decimal(c, None)
+            if d is None:
+                d = unicodedata.digit(c, None)
+            if d is not None:
+                allc.append(c)
+                value[c] = d
+    LOOKALIKE_DIGITS['all'] = allc
+    LOOKALIKE_DIGITS['value'] = value
+
+
 def shards(tier):
     # eu.vat and vatin only dispatch to national modules, each of which is monitored itself (C09 ties the
     # wrappers to them); their neighbours can fall under another country's or scheme's rule
@@ -143,6 +171,28 @@ def neighbourhood(name, mod, v, positions, transpose, family, viols, cells, tier
                 add(viols, 'C17|%s|single-substitution-accepted' % name,
                     '%r is valid and so is %r (position %d: %r -> %r; protected by %s)' % (v, t, p, c, x, family),
                     {'module': name, 'number': v, 'pos': p, 'repl': x, 'kind': 'subst'})
+    # a look-alike character whose Unicode decimal value differs from the digit it replaces (the clean-up table
+    # is the library's; the value is Unicode's)
+    for p in sorted(positions):
+        c = v[p]
+        if c not in '0123456789':
+            continue
+        for x in LOOKALIKE_DIGITS.get('all', []):
+            dv = LOOKALIKE_DIGITS['value'][x]
+            if dv == int(c) or (tier == 'quick' and rng.random() > 0.15):
+                continue
+            t = v[:p] + x + v[p + 1:]
+            evals += 1
+            try:
+                ok = mod.is_valid(t) is True
+            except Exception:  # noqa: B902
+                ok = False
+            if ok and name in DOCUMENTED_ESCAPES and escapes(name, v, v[:p] + str(dv) + v[p + 1:]):
+                continue
+            if ok:
+                add(viols, 'C17|%s|lookalike-of-another-digit-accepted' % name,
+                    '%r is valid and so is %r (position %d: %r -> U+%04X, a look-alike of %d)' % (v, t, p, c, ord(x), dv),
+                    {'module': name, 'number': v, 'pos': p, 'repl': x, 'kind': 'subst'})
     if transpose:
         for p in range(n - 1):
             a, b = v[p], v[p + 1]
@@ -166,6 +216,7 @@ def neighbourhood(name, mod, v, positions, transpose, family, viols, cells, tier
 
 def work(shard, tier):
     mods = C.number_modules()
+    load_lookalikes()
     probe = C.Probe()
     probe.start()
     seen = []
@@ -223,6 +274,23 @@ def work(shard, tier):
                 transpose = True
             counters['numbers'] += 1
             evals += neighbourhood(name, mod, v, positions, transpose, family, viols, cells, tier, rng)
+            if listed:
+                # accepted spellings that carry extra digits in front (century, zero padding): those digits are part
+                # of a valid number as written and a typing error in them must not go unnoticed
+                for pre in ('16', '19', '20', '00', '0', '1'):
+                    x = pre + v
+                    ox = C.outcome(mod.validate, x)
+                    if ox[0] == 'ok' and ox[1] == v:
+                        for p in range(len(pre)):
+                            for d in '0123456789':
+                                if d != x[p]:
+                                    t = x[:p] + d + x[p + 1:]
+                                    evals += 1
+                                    ot = C.outcome(mod.validate, t)
+                                    if ot[0] == 'ok' and ot[1] == v:
+                                        add(viols, 'C17|%s|unchecked-leading-digit' % name,
+                                            '%r and %r are both accepted as %r: the digit at position %d is not covered by any check' % (x, t, v, p),
+                                            {'module': name, 'number': x, 'pos': p, 'repl': d, 'kind': 'subst'})
             if len(samples) < 1 and not listed:
                 samples.append({'module': name, 'number': v, 'protected_by': family, 'covered_positions': sorted(positions)})
     probe.stop()
